@@ -1,6 +1,7 @@
 import PeptVerif.Model.Proto
 import PeptVerif.Model.ProtoC10
 import PeptVerif.Model.ModDbGen
+import PeptVerif.Model.ModDbFacts
 /-! driver for C10: the resolver model over the generated vocabularies -/
 open Proto ProtoC10 ModDb Formula
 
@@ -78,6 +79,25 @@ def step (line : String) : String :=
       | some e => showEntry e
       | none => "None"
     | _, _ => "bad-op"
+  | ["fact", what, kind] =>
+    -- the boolean table checks of Props/C10Tab*.lean / C10Mass.lean evaluated entry by entry: names the offending entries
+    match dbOf? kind with
+    | none => "bad-op"
+    | some (_, db) =>
+      let bad : List Entry :=
+        match what with
+        | "unclean" => db.filter (fun e => !entryClean e)
+        | "numeric" => db.filter (fun e => !nameNotNumeric e)
+        | "monomass" => db.filter (fun e => !monoMatchesComp T.mass e)
+        | "dupkeys" =>
+          let ks := KSort.msort (keysOf db)
+          let dups := (ks.zip (ks.drop 1)).filter (fun ab => !KSort.ltStr ab.1 ab.2) |>.map (·.1)
+          db.filter (fun e => dups.contains e.id || dups.contains e.name)
+        | "cross" =>
+          let pk := keysOf T.psimod
+          db.filter (fun e => !collisions.contains e.name && pk.contains e.name)
+        | _ => []
+      ";".intercalate ((bad.take 20).map (fun e => encode e.id ++ "," ++ encode e.name))
   | _ => "bad-op"
 
 def main : IO Unit := runDriver step
